@@ -1,6 +1,192 @@
-//! Standalone `cargo test`-style reproduction snippets (filled in for the main scenario families).
-use crate::common::{Notes, Params};
+//! Standalone `cargo test`-style reproduction snippets.
+//!
+//! A snippet rebuilds the PARAMETERS of the failing case (group size, threshold, identifier list in
+//! the same order, key source, signer set, message, and the scenario's own choices where they are
+//! simple) with the public API of the ciphersuite crate and fresh system randomness.  It does not
+//! replay the random stream of the case (`--replay` does that); all defects seen so far depend on
+//! the parameters only.  Copy to `<suite crate>/tests/rt_repro.rs` and run
+//! `cargo test -p <suite crate> --offline --test rt_repro`.
 
-pub fn make(_property: &str, _suite: &str, _scenario: &str, _p: &Params, _notes: &Notes) -> Option<String> {
-    None
+use serde_json::Value;
+
+use crate::common::{IdSpec, KeySource, Notes, Params};
+
+fn krate(suite: &str) -> &'static str {
+    match suite {
+        "ed25519" => "frost_ed25519",
+        "ed448" => "frost_ed448",
+        "p256" => "frost_p256",
+        "ristretto255" => "frost_ristretto255",
+        "secp256k1" => "frost_secp256k1",
+        _ => "frost_secp256k1_tr",
+    }
 }
+
+fn id_expr(i: &IdSpec) -> String {
+    match i {
+        IdSpec::U16(n) => format!("frost::Identifier::try_from({n}u16).unwrap()"),
+        IdSpec::Derived(s) => format!("frost::Identifier::derive(b{s:?}).unwrap()"),
+    }
+}
+
+fn byte_lit(b: &[u8]) -> String {
+    if b.len() > 256 {
+        format!("vec![0xa5u8; {}] /* original: {} random bytes, see message_hex */", b.len(), b.len())
+    } else {
+        format!("vec!{b:?}")
+    }
+}
+
+fn prelude(suite: &str, p: &Params) -> String {
+    let k = krate(suite);
+    let ids: Vec<String> = p.ids.iter().map(id_expr).collect();
+    let signers: Vec<String> = p.signers.iter().map(|i| i.to_string()).collect();
+    let keygen = match p.key_source {
+        KeySource::Dealer => {
+            let list = if p.id_scheme == "default" {
+                "frost::keys::IdentifierList::Default".to_string()
+            } else {
+                "frost::keys::IdentifierList::Custom(&ids)".to_string()
+            };
+            format!(
+                r#"    // trusted dealer
+    let (shares, pubkeys) = frost::keys::generate_with_dealer({n}, {t}, {list}, &mut rng)
+        .expect("dealer key generation with valid parameters");
+    let mut key_packages: BTreeMap<frost::Identifier, frost::keys::KeyPackage> = BTreeMap::new();
+    for (id, share) in shares {{
+        key_packages.insert(id, frost::keys::KeyPackage::try_from(share).expect("honest dealer share verifies"));
+    }}
+"#,
+                n = p.n,
+                t = p.t
+            )
+        }
+        KeySource::Dkg => format!(
+            r#"    // distributed key generation
+    let mut r1_secret = BTreeMap::new();
+    let mut r1_pkg = BTreeMap::new();
+    for id in &ids {{
+        let (s, pk) = frost::keys::dkg::part1(*id, {n}, {t}, &mut rng).expect("honest part1");
+        r1_secret.insert(*id, s);
+        r1_pkg.insert(*id, pk);
+    }}
+    let mut r2_secret = BTreeMap::new();
+    let mut r2_out = BTreeMap::new();
+    for id in &ids {{
+        let received: BTreeMap<_, _> = r1_pkg.iter().filter(|(k, _)| *k != id).map(|(k, v)| (*k, v.clone())).collect();
+        let (s, out) = frost::keys::dkg::part2(r1_secret[id].clone(), &received).expect("honest part2");
+        r2_secret.insert(*id, s);
+        r2_out.insert(*id, out);
+    }}
+    let mut key_packages: BTreeMap<frost::Identifier, frost::keys::KeyPackage> = BTreeMap::new();
+    let mut pubkeys_of = BTreeMap::new();
+    for id in &ids {{
+        let r1: BTreeMap<_, _> = r1_pkg.iter().filter(|(k, _)| *k != id).map(|(k, v)| (*k, v.clone())).collect();
+        let r2: BTreeMap<_, _> = r2_out.iter().filter(|(k, _)| *k != id).map(|(k, v)| (*k, v[id].clone())).collect();
+        let (kp, pkp) = frost::keys::dkg::part3(&r2_secret[id], &r1, &r2).expect("honest part3");
+        assert_eq!(pkp.verifying_shares().get(id), Some(kp.verifying_share()), "key package vs public key package");
+        key_packages.insert(*id, kp);
+        pubkeys_of.insert(*id, pkp);
+    }}
+    let pubkeys = pubkeys_of.values().next().unwrap().clone();
+    assert!(pubkeys_of.values().all(|p| *p == pubkeys), "all participants derive the same public key package");
+"#,
+            n = p.n,
+            t = p.t
+        ),
+    };
+    format!(
+        r#"use std::collections::BTreeMap;
+use {k} as frost;
+use {k}::rand_core;
+
+#[test]
+fn rt_repro() {{
+    let mut rng = rand_core::UnwrapErr(rand::rngs::SysRng);
+    // identifiers in the order in which they are handed to the library
+    let ids: Vec<frost::Identifier> = vec![
+        {ids}
+    ];
+    let message: Vec<u8> = {msg};
+{keygen}
+    // signer set (indices into `ids`)
+    let signers: Vec<frost::Identifier> = [{signers}].iter().map(|i: &usize| ids[*i]).collect();
+"#,
+        ids = ids.join(",\n        "),
+        msg = byte_lit(&p.message),
+        signers = signers.join(", "),
+    )
+}
+
+const SESSION: &str = r#"    let mut nonces = BTreeMap::new();
+    let mut commitments = BTreeMap::new();
+    for id in &signers {
+        let (n, c) = frost::round1::commit(key_packages[id].signing_share(), &mut rng);
+        nonces.insert(*id, n);
+        commitments.insert(*id, c);
+    }
+    let signing_package = frost::SigningPackage::new(commitments, &message);
+    let mut signature_shares = BTreeMap::new();
+    for id in &signers {
+        let share = frost::round2::sign(&signing_package, &nonces[id], &key_packages[id]).expect("honest signer signs");
+        signature_shares.insert(*id, share);
+    }
+"#;
+
+pub fn make(property: &str, suite: &str, scenario: &str, p: &Params, notes: &Notes) -> Option<String> {
+    let mut s = prelude(suite, p);
+    let tail = match scenario {
+        "scenario_sign_aggregate_verify" | "scenario_honest_dkg" => format!(
+            "{SESSION}    for (id, share) in &signature_shares {{\n        frost::verify_signature_share(*id, &pubkeys.verifying_shares()[id], share, &signing_package, pubkeys.verifying_key())\n            .expect(\"honest share verifies\");\n    }}\n    let signature = frost::aggregate(&signing_package, &signature_shares, &pubkeys).expect(\"aggregation of honest shares\");\n    pubkeys.verifying_key().verify(&message, &signature).expect(\"signature verifies under the group key\");\n"
+        ),
+        "scenario_cheaters_named" => {
+            let cheaters: Vec<usize> = notes
+                .get("tampered")
+                .and_then(|t| t.as_array())
+                .map(|a| {
+                    a.iter()
+                        .filter(|e| e.get("differs").and_then(Value::as_bool).unwrap_or(false))
+                        .filter_map(|e| e.get("signer_rank").and_then(Value::as_u64).map(|x| x as usize))
+                        .collect()
+                })
+                .unwrap_or_default();
+            format!(
+                "{SESSION}    // the cheaters (positions in `signers`) submit share + 1\n    let cheater_ranks: Vec<usize> = vec!{cheaters:?};\n    let mut cheaters: Vec<frost::Identifier> = cheater_ranks.iter().map(|r| signers[*r]).collect();\n    cheaters.sort();\n    for c in &cheaters {{\n        let mut b = signature_shares[c].serialize();\n        // any alteration will do: flip one low bit (first byte; if that leaves the scalar range, the last byte)\n        let last = b.len() - 1;\n        if frost::round2::SignatureShare::deserialize(&{{ let mut x = b.clone(); x[0] ^= 1; x }}).is_ok() {{ b[0] ^= 1; }} else {{ b[last] ^= 1; }}\n        signature_shares.insert(*c, frost::round2::SignatureShare::deserialize(&b).unwrap());\n    }}\n    let e = frost::aggregate(&signing_package, &signature_shares, &pubkeys).expect_err(\"invalid shares must not aggregate\");\n    assert_eq!(e.culprits(), vec![cheaters[0]], \"first-cheater detection names the lowest-identifier cheater\");\n    let e = frost::aggregate_custom(&signing_package, &signature_shares, &pubkeys, frost::CheaterDetection::AllCheaters).unwrap_err();\n    let mut named = e.culprits();\n    named.sort();\n    assert_eq!(named, cheaters, \"all-cheaters detection names exactly the cheaters\");\n"
+            )
+        }
+        "scenario_signer_and_coordinator_refuse" => format!(
+            "    // fewer than min_signers signers: {} \n    let few = {};\n    let signers: Vec<frost::Identifier> = few.iter().map(|h: &&str| ids.iter().copied().find(|i| hex_of(i) == *h).unwrap()).collect();\n{SESSION_LOWERED}",
+            "see scenario_choices.below_threshold_signers_hex",
+            notes.get("below_threshold_signers_hex").map(|v| v.to_string().replace('[', "vec![")).unwrap_or_else(|| "vec![]".into()),
+        ),
+        _ => format!(
+            "    // Scenario `{scenario}` of property {property}: the scenario-specific steps are not templated.\n    // Follow the check recorded in the JSON (\"check\", \"expected\", \"observed\") with these choices:\n    // {}\n    let _ = (&key_packages, &pubkeys, &signers, &message);\n",
+            Value::Object(notes.clone()).to_string().replace('\n', " ")
+        ),
+    };
+    s.push_str(&tail);
+    s.push_str("}\n");
+    if scenario == "scenario_signer_and_coordinator_refuse" {
+        s.push_str("\nfn hex_of(i: &frost::Identifier) -> String { i.serialize().iter().map(|b| format!(\"{b:02x}\")).collect() }\n");
+    }
+    Some(s)
+}
+
+const SESSION_LOWERED: &str = r#"    let mut nonces = BTreeMap::new();
+    let mut commitments = BTreeMap::new();
+    for id in &signers {
+        let (n, c) = frost::round1::commit(key_packages[id].signing_share(), &mut rng);
+        nonces.insert(*id, n);
+        commitments.insert(*id, c);
+    }
+    let signing_package = frost::SigningPackage::new(commitments, &message);
+    let mut signature_shares = BTreeMap::new();
+    for id in &signers {
+        let kp = &key_packages[id];
+        frost::round2::sign(&signing_package, &nonces[id], kp).expect_err("honest signer refuses a package below the threshold");
+        // the signer lies about the threshold in its own key material
+        let lying = frost::keys::KeyPackage::new(*kp.identifier(), *kp.signing_share(), *kp.verifying_share(), *kp.verifying_key(), signers.len() as u16);
+        signature_shares.insert(*id, frost::round2::sign(&signing_package, &nonces[id], &lying).unwrap());
+    }
+    frost::aggregate(&signing_package, &signature_shares, &pubkeys).expect_err("the coordinator refuses fewer than min_signers shares");
+"#;
